@@ -400,6 +400,33 @@ def history_runs(run_, exe, rng, n, prop):
                 # no guess: the answer must not mention a reversed patch
                 if "eversed" in r["stdout"].decode("latin-1"):
                     bad.append((idx[j], "-f still guessed that the patch is reversed", rep))
+    if prop == "C06":
+        # a patch that empties / deletes its file, run with -N on a tree where that file is already empty (the state an
+        # earlier run under --posix, which keeps empty files, leaves behind): detected as applied, every file stays as it is
+        emptied = []
+        for _ in range(max(20, n // 4)):
+            sec = scen.section(rng, rng.choice(["e", "d/e", "e.txt"]), kind="delete", fmt=rng.choice(["unified", "unified", "context", "git"]))
+            s = scen.base_scenario(rng, [sec], opts={"N": 1})
+            s["tree"][sec["path"]] = ("R", 0o644, b"")
+            for bystander in ("keep", "d/keep"):
+                scen.add_parents(s["tree"], bystander); s["tree"][bystander] = ("R", 0o644, b"k\n")
+            emptied.append(s)
+
+        def judge_emptied(s, r):
+            sec = s["secs"][0]
+            after = tree_no_meta(r["tree"])
+            if "eversed" not in r["stdout"].decode("latin-1"):
+                return None      # not recognised as applied (e.g. the hunk was judged on its own): nothing claimed here
+            if after.get(sec["path"]) != ("R", 0o644, b""):
+                return "-N on an already emptied file: the file did not stay as it was (%r)" % (after.get(sec["path"]),)
+            for b_ in ("keep", "d/keep"):
+                if after.get(b_) != ("R", 0o644, b"k\n"):
+                    return "-N run changed the bystander %s" % b_
+            if r["exit"] != 1:
+                return "-N on an already applied patch exits %d instead of 1" % r["exit"]
+            return None
+        r3, b3, m3 = l2_family(run_, exe, emptied, judge_emptied, cls=lambda s, r: "-N on emptied file exit %d" % r["exit"], label=prop)
+        bad += b3; mism += m3
     return bad, mism
 
 
